@@ -34,8 +34,10 @@ P1 = {
     "src/alpha.f90": """module alpha
   !! module alpha
   use base_a
+  use iso_fortran_env
   use base_b
   use base_c
+  use iso_c_binding
   use ExtLib
   implicit none
   type, extends(root_t) :: child1_t
